@@ -3,9 +3,9 @@ ROOT = {"dir": "", "pkgname": "ipfscluster"}
 
 SPEC = {
     "go": [dict(STATELESS, files=["stateless/c05_rig_test.go", "stateless/c05_test.go"], test="TestVerifC05",
-                n_quick=260, n_thorough=9000, shards_quick=4, shards_thorough=12, timeout_quick=600),
+                n_quick=260, n_thorough=9000, shards_quick=4, shards_thorough=24, timeout_quick=600),
            dict(ROOT, files=["root/rig_test.go", "root/c06_global_test.go"], test="TestVerifC06Global",
-                n_quick=400, n_thorough=12000, shards_quick=2, shards_thorough=8, timeout_quick=600)],
+                n_quick=400, n_thorough=12000, shards_quick=2, shards_thorough=12, timeout_quick=600)],
     "rule": "tracker part: the C05 event scripts (track/untrack/recover/recoverall/complete(ok|fault)/daemon-change over 1..4 CIDs, "
             "local/everywhere/remote/meta x recursive/direct, arbitrary initial shared state and daemon content); after every event "
             "Status of every CID, StatusAll(0) and StatusAll(f) for 4 masks (10 at the end of a script: single statuses, the composites "
